@@ -106,6 +106,13 @@ pub fn exec(func: &str, a: &mut Args) -> String {
             match m.local_split(&Unit::new_unchecked(n), bias, eps) {
                 SplitResult::Negative => "neg".into(), SplitResult::Positive => "pos".into(),
                 SplitResult::Pair(l, r) => format!("pair {} {}", fmesh(&l), fmesh(&r)) } }
+        // the cutting part of `local_split`, bit-exact against `Model.Cut.localSplitUncapped`: the mesh is built WITHOUT the
+        // ORIENTED flag (no cap triangulation), whatever the flag in the arguments says
+        "tm_cut" => { let _ = a.b(); let v = pts(a); let n = a.u();
+            let idx: Vec<[u32; 3]> = (0..n).map(|_| [a.u() as u32, a.u() as u32, a.u() as u32]).collect();
+            let m = TriMesh::new(v, idx).expect("mesh");
+            let n = d3::v(a); let bias = a.f(); let eps = a.f();
+            fsplit(m.local_split(&Unit::new_unchecked(n), bias, eps)) }
         "tm_split_pos" => { let m = mesh(a); let pos = d3::iso(a); let n = d3::v(a); let bias = a.f(); let eps = a.f();
             match m.split(&pos, &Unit::new_unchecked(n), bias, eps) {
                 SplitResult::Negative => "neg".into(), SplitResult::Positive => "pos".into(),
@@ -621,6 +628,7 @@ pub fn gen(r: &mut Rng, thorough: bool) -> Vec<(String, String)> {
                 let args = format!("{} {} {} {}", hmesh(oriented, &mv, &mi), d3::hv(&nrm), hx(bias), hx(eps));
                 v.push(("tm_split".into(), args.clone()));
                 v.push(("tm_verdict".into(), args.clone()));
+                v.push(("tm_cut".into(), args.clone()));
                 v.push(("tm_section".into(), args));
             }
             if it % 8 == 0 {
